@@ -5,4 +5,4 @@ Extraction "c02_model.ml"
   prelude_byte_of_N prelude_N_of_byte prelude_Z_of_N prelude_Z_opp prelude_nat_of_N prelude_N_of_nat
   hex unhex utf8_ok utf8_enc splitext strip sanitize basename py_strip suggested_save_name save_file_name recovered_file_name
   split blob_hashsum get_stream_hash as_json sd_hash old_sort_json old_sd_hash validate to_sdj
-  blob_hashsum build_stream create_stream create_stream_layout decrypt_stream read_blob run_reads save_loop range_plan range_read range_read_old expected_lengths.
+  blob_hashsum build_stream create_stream create_stream_layout create_stream_in decrypt_stream read_blob run_reads save_loop range_plan range_read range_read_old expected_lengths.
